@@ -125,10 +125,26 @@ def last_json(text):
     return None
 
 
+def crashed_result(variant, seed, focus, extra, rc, stderr):
+    """The simulated process itself died (signal / abort) — e.g. a panic inside a thread-local destructor, a
+    stack overflow, an allocation failure.  Re-run with the history printed first so that there is a trace."""
+    p = subprocess.run([binpath(variant), "gated", "--seed", str(seed), "--focus", focus, "--print-trace"] + list(extra),
+                       capture_output=True, text=True)
+    lines = [l for l in p.stdout.splitlines() if re.match(r"^T\d+ ", l)]
+    why = "the process running the simulated callers died (exit status %d): %s" % (rc, (stderr or "").strip().splitlines()[-1:] or [""])
+    return dict(mode="gated", variant=variant, seed=seed, focus=focus, events=len(lines), threads=0, ops={}, faults={"process_abort": 1},
+                thread_switches=0, first_uses=0, contended_first_uses=0, repeated_calls=0, sched_hash="crash", h_parse_and_int="crash",
+                h_float_write="crash", records=None, trace=lines,
+                violations=[dict(index=len(lines), thread=0, prop="C10", tag="", enc="", op="(whole run)", msg=why),
+                            dict(index=len(lines), thread=0, prop=focus, tag="", enc="", op="(whole run)", msg=why)])
+
+
 def run_gated(variant, seed, focus, extra=()):
     p = subprocess.run([binpath(variant), "gated", "--seed", str(seed), "--focus", focus] + list(extra),
                        capture_output=True, text=True)
     j = last_json(p.stdout)
+    if j is None and (p.returncode < 0 or p.returncode > 2):
+        return crashed_result(variant, seed, focus, extra, p.returncode, p.stderr)
     if j is None or p.returncode == 2:
         die("lexsim %s gated seed %d: rc=%d, no result\nstdout: %s\nstderr: %s" % (variant, seed, p.returncode, p.stdout[-500:], p.stderr[-1500:]))
     return j
@@ -137,6 +153,16 @@ def run_gated(variant, seed, focus, extra=()):
 def run_replay_gated(variant, path):
     p = subprocess.run([binpath(variant), "replay", path], capture_output=True, text=True)
     j = last_json(p.stdout)
+    if j is None and (p.returncode < 0 or p.returncode > 2):
+        prop = None
+        for line in open(path):
+            m = re.search(r"prop=(C\d+)", line)
+            if m:
+                prop = m.group(1)
+                break
+        why = "the process running the simulated callers died (exit status %d)" % p.returncode
+        return dict(violations=[dict(prop="C10", tag="", op="(whole run)", msg=why)] +
+                    ([dict(prop=prop, tag="", op="(whole run)", msg=why)] if prop and prop != "C10" else []), records=None)
     if j is None or p.returncode == 2:
         die("lexsim %s replay %s: rc=%d\n%s" % (variant, path, p.returncode, p.stderr[-1500:]))
     return j
